@@ -45,7 +45,7 @@ def _durations():
     )
 
 
-ZONES = ["Europe/Berlin", "America/New_York", "Australia/Lord_Howe", "Asia/Kolkata", "America/St_Johns", "Pacific/Apia", "Europe/London", "UTC"]
+ZONES = ["Europe/Berlin", "America/New_York", "Australia/Lord_Howe", "Asia/Kolkata", "America/St_Johns", "Pacific/Apia", "Europe/London", "Europe/Lisbon", "UTC"]
 # UTC instants (s) of DST transitions: the repeated / skipped local hour is where `fold` matters
 TRANSITIONS = [1635642000, 1616893200, 1636264800, 1615705200, 1617463800, 1633188600, 1635642000 + 365 * 86400, 1667091600, 972781200, 2540163600]
 
@@ -96,6 +96,10 @@ def _check_ts(e, us, what):
         raise Violation(f"{what}: timestamp is not an aware datetime: {ts!r}")
     if ts.utcoffset() != timedelta(0):
         raise Violation(f"{what}: timestamp not in UTC: {ts!r}")
+    # "UTC-aware" means the zone is UTC, not a zone that merely happens to be at +00:00 at this instant (London in winter)
+    for probe in (datetime(2021, 1, 15, 12), datetime(2021, 7, 15, 12)):
+        if ts.tzinfo.utcoffset(probe) != timedelta(0):
+            raise Violation(f"{what}: timestamp is held in the zone {ts.tzinfo!r}, which is not UTC (offset {ts.tzinfo.utcoffset(probe)} on {probe.date()}): {ts!r}")
     got = gen.to_us(ts)
     if got != _expected_us(us):
         raise Violation(f"{what}: instant {us} us should floor to {_expected_us(us)} us, event holds {got} us")
